@@ -50,7 +50,9 @@ var tailFeats = []tailFeat{
 	{"plain", func(t bool, k *int) node { return trOr(t, k, nSym("n")) }, false},
 	{"local", func(t bool, k *int) node { return nDef("loc", trOr(t, k, nApp("+", nSym("n"), nInt(1)))) }, false},
 	{"scope", func(t bool, k *int) node { return nScope(nDef("inner", nSym("n")), trOr(t, k, nSym("inner"))) }, false},
-	{"nontail-self", func(t bool, k *int) node { return trOr(t, k, nApp("+", nInt(1), nCall(nSym("f"), nInt(0), nSym("acc")))) }, false},
+	{"nontail-self", func(t bool, k *int) node {
+		return trOr(t, k, nApp("+", nInt(1), nCall(nSym("f"), nInt(0), nSym("acc"))))
+	}, false},
 	{"closure", func(t bool, k *int) node { return nDef("c", nFn(nil, "", nSym("n"))) }, true},
 }
 
